@@ -33,6 +33,25 @@ CHECKS = {
             "refutes it one above); TLC checks the real function's output for all 16,194,277 challenges (thorough) or boundary windows, "
             "stride and residue strata (quick)",
             "that the published formula with C-style remainder is the client's computation (property text)", "DESIGN.md 6 C11"),
+    "C12": ("TLA+ state machine Draw*;Result;FromValues over the EO codec; TLC on the most general generator; exhaustive enumeration "
+            "of every outcome of every random draw of the real generate() functions, each validated by TLC as a behaviour of the spec",
+            "SequenceStart.tla defines which draws/results/reconstructions are allowed (components must survive the EO number codec); "
+            "TLC checks every value is producible and every allowed result reconstructs; the real code is bound by substituting its random "
+            "source and enumerating all 57,751 + 240 (+ 442,764 thorough; every 7th value quick) outcomes, which TLC accepts or rejects",
+            "generate() uses only randrange/randint with step 1 (otherwise the check reports a machinery error)", "DESIGN.md 6 C12"),
+    "C13": ("TLA+ state machine with Lockstep/UpdateKeepsCounter action properties and a two-peer product; TLC-generated histories "
+            "replayed on PacketSequencer; recorded random histories validated by a TLA+ trace spec",
+            "Sequencer.tla: NextSequence/SetStart; TLC explores all histories of runs up to 12 calls between up to 2 (3) updates over 5 "
+            "starts of all four SequenceStart classes; every maximal history is replayed on the real class comparing each return value; "
+            "3,000 (20,000) random histories up to 200 events are recorded from the real class and validated by Trace_Sequencer",
+            "TLC; histories longer/more varied than the exhaustive shape are sampled", "DESIGN.md 6 C13"),
+    "C14": ("TLA+ model of member tables and construction histories with object identities; TLC-enumerated and simulated histories "
+            "replayed on hand-written and generated enums under CPython 3.12 and 3.11",
+            "ProtocolEnum.tla: Construct(enum, n) with identities; TLC checks members never change / one object per member / unrecognized "
+            "iff undeclared over all histories of depth 2 (3) on 4 enums x 12 integers (incl. -1, 2^31, 253^4) plus simulated walks of depth 8; "
+            "each history is replayed on real enums (one hand-written, three emitted by the real generator) and the full projection (type, "
+            "identity, name, value, int, ==, hash, containment, member tables of all enums) is checked after every construction",
+            "only CPython 3.11/3.12 are installed", "DESIGN.md 6 C14"),
 }
 
 PLANNED = {}
